@@ -3,8 +3,8 @@
   (152-228), `read_ascii_spec` (102-146), and `units.validate_unit` (units.py:259-335) on strings,
   over an *abstract stored file*: unit strings × columns × header maps.
 
-  What is modelled branch for branch: unit validation and the upper-cased unit strings the writer
-  emits; the shape check; `trim_zero`; the precision decision and the epsilon thinning; `pad_zero_ends`;
+  What is modelled branch for branch: unit validation and the unit strings the writer emits
+  (`_unit_to_fits_str`); the shape check; `trim_zero`; the precision decision and the epsilon thinning; `pad_zero_ends`;
   the header cards; the reader's TUNIT normalisation (both `validate_unit` passes), its
   case-insensitive column lookup, and the `try … finally: fs.close()` exception flow;
   the ASCII reader's choice of columns.
@@ -57,8 +57,14 @@ def validateUnit (astro : Astro) : UnitSpec → Except Err String
   | .unit id => .ok id
   | .other => .error .synphotError
 
-/-- `validate_unit(x).to_string().upper()`: the string handed to `fits.Column(unit=…)` -/
-def emitUnit (id : String) : String := id.toUpper
+/-- `_unit_to_fits_str(unit)`: the string handed to `fits.Column(unit=…)` — the unit's generic string,
+upper-cased (the legacy convention) only if `validate_unit` maps the upper-cased string back to the
+same unit; `ValueError` from that probe keeps the case.  (Unit equality is equality of generic
+strings here.) -/
+def emitUnit (astro : Astro) (id : String) : String :=
+  match validateUnit astro (.str id.toUpper) with
+  | .ok v => if v = id then id.toUpper else id
+  | .error _ => id
 
 /-- the `TUNITn` card astropy writes for a column unit string: none for the empty string -/
 def tunitCard (s : String) : Option String := if s = "" then none else some s
@@ -195,8 +201,8 @@ def writeFitsSpec (astro : Astro) (a : WriteArgs K) : Except Err (FitsFile K) :=
   pure {
     pri := setCards [("FILENAME", a.filename), ("ORIGIN", "synphot")] a.priHeader
     exts := [{ extname := "", header := setCards [] a.extHeader, format := p,
-               cols := [⟨a.waveCol, tunitCard (emitUnit wu), rows.map Prod.fst⟩,
-                        ⟨a.fluxCol, tunitCard (emitUnit fu), rows.map Prod.snd⟩] }] }
+               cols := [⟨a.waveCol, tunitCard (emitUnit astro wu), rows.map Prod.fst⟩,
+                        ⟨a.fluxCol, tunitCard (emitUnit astro fu), rows.map Prod.snd⟩] }] }
 
 /-! ## read_fits_spec -/
 
@@ -264,19 +270,18 @@ def pyTryFinally {α : Type} (body : Except Err α) (fin : Except Err Unit) : Ex
   | .ok _ => body
 
 /-- `read_fits_spec`.  `file = none`: `fits.open` raises (missing, unreadable, empty or corrupt
-file).  `isStr`: the caller passed a file name rather than an open file object; only then does the
-`finally` block call `fs.close()`, and `fs` is bound only if `fits.open` returned. -/
+file) — it is called *before* the `try`, so its `OSError` propagates as it is.  `isStr`: the caller
+passed a file name rather than an open file object; only then does the `finally` block call
+`fs.close()` (which does not raise: `fs` is bound whenever the `try` is entered). -/
 def readFitsSpec (astro : Astro) (isStr : Bool) (file : Option (FitsFile K)) (ext : ExtSel)
     (waveCol fluxCol : String) : Except Err (ReadResult K) :=
   let wc := waveCol.toLower
   let fc := fluxCol.toLower
-  let body : Except Err (ReadResult K) :=
-    match file with
-    | none => .error .fileError
-    | some f => readFitsBody astro f ext wc fc
-  let fin : Except Err Unit :=
-    if isStr then (if file.isSome then .ok () else .error .unboundLocal) else .ok ()
-  pyTryFinally body fin
+  match file with
+  | none => .error .fileError
+  | some f =>
+    let fin : Except Err Unit := if isStr then .ok () else .ok ()
+    pyTryFinally (readFitsBody astro f ext wc fc) fin
 
 /-! ## read_ascii_spec -/
 
